@@ -764,40 +764,48 @@ def check_pfield(ctx, rng):
     BATCH.append(('_pfield (SecInt/SecFxp)', reqs, impl, None))
 
 
+def lifted_run(m, t, q, seed):
+    """One real multi-party computation over SecFld(q) with q <= m, t > 0.  Returns (problem or None, parties)."""
+    import random as pyrandom
+    clear_caches()
+    r = pyrandom.Random(f'{seed}:{m}:{t}:{q}')
+    xs = [r.randrange(q) for _ in range(3)]
+
+    async def prog(mpc):
+        S = mpc.SecFld(q)
+        a, b, c = (S(v) for v in xs)
+        res = await mpc.output([a * b + c, a + b, a * a * c, a - b])
+        return (S.subfield is not None, S.field.order, [(type(v).__name__, int(v), type(v).order) for v in res])
+    net = SimNet(m, t, no_prss=False, seed=seed)
+    try:
+        outs = net.run(prog)
+    except Exception as exc:
+        clear_caches()
+        return f'run failed: {type(exc).__name__}: {str(exc)[:200]}', 0
+    clear_caches()
+    a, b, c = xs
+    want = [(a * b + c) % q, (a + b) % q, (a * a * c) % q, (a - b) % q]
+    for i, (lifted, order, res) in enumerate(outs):
+        vals = [v for _, v, _ in res]
+        ords = {o for _, _, o in res}
+        if not lifted or order <= m or vals != want or ords != {q}:
+            return (f'party {i}: lifted={lifted} sharing field order={order} outputs={res}, expected values {want} in GF({q}) '
+                    f'shared over a field with more than {m} elements'), len(outs)
+    return None, len(outs)
+
+
 def check_lifted_runs(ctx):
     """Real multi-party computations over lifted fields: outputs are base-field elements with the right values."""
-    import random as pyrandom
     for (m, t, q) in [(3, 1, 2), (3, 1, 3), (5, 2, 2), (5, 2, 5), (5, 1, 3), (7, 3, 7), (4, 1, 2)] + \
             ([(9, 4, 2), (9, 4, 3), (8, 3, 7), (7, 2, 5)] if ctx.thorough else []):
-        clear_caches()
-        r = pyrandom.Random(f'{ctx.seed}:{m}:{t}:{q}')
-        xs = [r.randrange(q) for _ in range(3)]
-
-        async def prog(mpc, q=q, xs=xs):
-            S = mpc.SecFld(q)
-            a, b, c = (S(v) for v in xs)
-            res = await mpc.output([a * b + c, a + b, a * a * c, a - b])
-            return (S.subfield is not None, S.field.order, [(type(v).__name__, int(v), type(v).order) for v in res])
-        net = SimNet(m, t, no_prss=False, seed=ctx.seed)
-        try:
-            outs = net.run(prog)
-        except Exception as exc:
-            ctx.violation(f'C39 lifted run m={m} t={t} q={q} failed: {type(exc).__name__}: {str(exc)[:200]}',
-                          violation_replay('liftrun', (m, t, q), 'outputs in GF(q)', repr(exc)[:300]))
-            continue
-        a, b, c = xs
-        want = [(a * b + c) % q, (a + b) % q, (a * a * c) % q, (a - b) % q]
-        for i, (lifted, order, res) in enumerate(outs):
-            vals = [v for _, v, _ in res]
-            ords = {o for _, _, o in res}
+        prob, n = lifted_run(m, t, q, ctx.seed)
+        for i in range(max(n, 1)):
             ctx.case(('liftrun', m, t, q, i))
-            if not lifted or order <= m or vals != want or ords != {q}:
-                ctx.violation(f'C39 lifted run m={m} t={t} q={q} party {i}: lifted={lifted} field order={order} outputs={res} '
-                              f'expected values {want} in GF({q})',
-                              violation_replay('liftrun', (m, t, q), want, [lifted, order, res]))
-                break
         ctx.count('lifted_runs')
-    clear_caches()
+        if prob:
+            ctx.violation(f'C39 lifted run m={m} t={t} q={q}: {prob}',
+                          {'kind': 'liftrun', 'case': [m, t, q], 'seed': ctx.seed,
+                           'expected': 'outputs in GF(q), sharing field larger than m', 'observed': prob})
 
 
 BATCH = []   # (what, requests, implementation lines, postprocess of model lines)
@@ -897,4 +905,22 @@ def replay(ctx, data):
         nets.close()
         clear_caches()
         return ok, f'Sec{knd}(l={l}, f={f}, p={p}, n={n}) m={m} t={t} k={k}: {msg}'
+    if kind == 'liftrun':
+        m, t, q = data['case']
+        prob, _ = lifted_run(m, t, q, data.get('seed', 0))
+        return prob is None, f'lifted run m={m} t={t} q={q}: {prob or "outputs correct, field exceeds m"}'
+    if kind == 'secflt':
+        m, t, k, s_, e_ = data['case']
+        nets = Nets()
+        net = nets.get(m, t, k)
+        clear_caches()
+        try:
+            T = net.ctx[0].run(lambda: sectypes.SecFlt(None, s_, e_))
+            orders = (T.significand_type.field.order, T.exponent_type.field.order)
+            ok, msg = (t == 0 or min(orders) > m), f'component field orders {orders}'
+        except AssertionError:
+            ok, msg = True, 'AssertionError (refused)'
+        nets.close()
+        clear_caches()
+        return ok, f'SecFlt(s={s_}, e={e_}) m={m} t={t} k={k}: {msg}'
     return True, 'nothing to execute for this replay kind'
